@@ -451,6 +451,11 @@ def apply_rewrites(src, mask, it, ed, stats, spec_entry):
         if any(x <= lo + m.start() and lo + m.end() <= y + 1 for x, y in r4_ranges): continue
         ed.replace(lo + m.start(), lo + m.end(), 'crate::spec::f32_pi()')
         stats['R7_cast_f32'] = stats.get('R7_cast_f32', 0) + 1
+    for m in re.finditer(r'\b(?:std|core)::f32::consts::(TAU|E|FRAC_PI_2|FRAC_PI_3|FRAC_PI_4|FRAC_PI_6|FRAC_PI_8|FRAC_1_PI|FRAC_2_PI|FRAC_2_SQRT_PI|SQRT_2|FRAC_1_SQRT_2|LN_2|LN_10|LOG2_E|LOG2_10|LOG10_E|LOG10_2)\b', body):
+        if mask[lo + m.start()] != ord('c'): continue
+        if any(x <= lo + m.start() and lo + m.end() <= y + 1 for x, y in r4_ranges): continue
+        ed.replace(lo + m.start(), lo + m.end(), 'crate::spec::f32_const_%s()' % m.group(1).lower())
+        stats['R7_cast_f32'] = stats.get('R7_cast_f32', 0) + 1
     for m in re.finditer(r'(?<![\w:])(?:(?:std|core)::)?f32::(MAX|MIN|INFINITY|NEG_INFINITY|EPSILON|NAN)\b', body):
         if mask[lo + m.start()] != ord('c'): continue
         if any(x <= lo + m.start() and lo + m.end() <= y + 1 for x, y in r4_ranges): continue
@@ -483,6 +488,13 @@ def apply_rewrites(src, mask, it, ed, stats, spec_entry):
         if mask[lo + m.start()] != ord('c'): continue
         ed.replace(lo + m.start(), lo + m.end(), 'crate::spec::parse_%s_str(&*%s)' % (m.group(2), m.group(1)))
         stats['R15_str'] = stats.get('R15_str', 0) + 1
+    # R17: `Vec::with_capacity(E)` => `vec_with_capacity(E)`: a wrapper whose body is that call and whose precondition is the allocation bound of the
+    #      resource envelope (E <= 2^31-1 elements); vstd's own contract of with_capacity has no precondition, so a capacity computed from a negative
+    #      operand (`n as usize`, a capacity-overflow panic) would go unnoticed
+    for m in re.finditer(r'(?<![\w:])Vec::(<[^<>()]*>::)?with_capacity\s*\(', body):
+        if mask[lo + m.start()] != ord('c'): continue
+        ed.replace(lo + m.start(), lo + m.end(), 'crate::spec::vec_with_capacity%s(' % ('::' + m.group(1)[:-2] if m.group(1) else ''))
+        stats['R17_with_capacity'] = stats.get('R17_with_capacity', 0) + 1
     # R13: the two comparator closures the crate sorts with: `E.sort_by(|a, b| a.partial_cmp(b).unwrap());` / `E.sort_by(|a, b| a.total_cmp(b));`
     #      => named wrappers whose bodies are these very calls (assumed contracts: a permutation ordered by the comparator)
     for x in re.finditer(r'(?<![\w.])((?:\*?[A-Za-z_]\w*)(?:\.[A-Za-z_]\w*)*)\.sort_by\s*\(\s*\|\s*(\w+)\s*,\s*(\w+)\s*\|\s*(\w+)\.(partial_cmp\(\s*(\w+)\s*\)\.unwrap\(\)|total_cmp\(\s*(\w+)\s*\))\s*\)\s*;', body):
